@@ -61,6 +61,21 @@ var scenarios = []scenario{
 		_, in := v["o1"]
 		expect(j, !in, "index/tombstoned-id-indexed/round", "o1 is deleted at p1 but back in its index after the rounds")
 	}, nil},
+	{"changed-id-tombstoned-with-queued-notification", func(w *world, j *judge) {
+		// both index o1 with different heads; the deletion reaches p1 but its notification is still queued,
+		// so p1's index still holds o1 and the diff reports it as changed: the filter must drop it
+		w.create("p1", "o1")
+		w.edit("p1", "o1", "c1")
+		w.create("p2", "o1")
+		w.edit("p2", "o1", "c2")
+		w.drain(j)
+		w.delete("p1", "o1")
+		w.roundBegin("p1")
+		w.roundCheck(j, "p1")
+		w.roundDiff(j, "p1")
+		o := w.roundApply(j, "p1")
+		expect(j, !contains(o.Existing, "o1"), "round/deleted-id-requested/existing", "o1 is deleted at p1 (notification still queued), SyncAll existing = %v", o.Existing)
+	}, nil},
 	{"offline-between-check-and-diff", func(w *world, j *judge) {
 		w.create("p2", "o1")
 		w.edit("p2", "o1", "c1")
